@@ -337,6 +337,8 @@ def correspond(ctx, proof_ok=True):
             continue
         c, r = calls[i], results[i]
         what = t[1:t.index(' ')]
+        if 'C09:%s:%s:%s' % (what, c['kind'], 'property' if v & 2 else 'model') in seen:
+            continue
         diag = cc.show('diagnose %s' % t)[-300:]
         if v & 2:
             viol('C09:%s:%s:property' % (what, c['kind']),
